@@ -129,6 +129,18 @@ func (w *World) verifyFunc(con *Contract) (res *FuncResult) {
 			}
 		}
 		for i, en := range con.Ensures {
+			if arg, ok := isFreshCall(en.Expr); ok {
+				// one named obligation per field, generated from the struct's current field list
+				for _, ff := range renv.freshOf(arg) {
+					if why, ok := con.FreshExcept[ff.Path]; ok {
+						e.note("C09: " + con.Name + " does not claim field " + ff.Path + ": " + why)
+						continue
+					}
+					o := &Obligation{Name: fmt.Sprintf("%s#fresh:%s@ret%d", e.fname, ff.Path, ri), Kind: "fresh", Pos: rp.pos, Step: rp.step(e), Reach: rp.st.reach, Goal: ff.Cond, Top: true, Blk: rp.blk}
+					e.obls = append(e.obls, o)
+				}
+				continue
+			}
 			t := in.specBool(en.Expr, renv)
 			o := &Obligation{Name: fmt.Sprintf("%s#ensures:%d@ret%d", e.fname, i, ri), Kind: "ensures", Pos: rp.pos, Step: rp.step(e), Reach: rp.st.reach, Goal: t, Top: en.Top, Blk: rp.blk}
 			e.obls = append(e.obls, o)
@@ -291,7 +303,8 @@ func (in *Inst) frameCheck(con *Contract, rp retPoint, ri int) {
 			continue
 		}
 		r := e.freshConst("fr.r", "Int")
-		conds := []string{sApp("<", r, allocE)}
+		// only objects that existed at entry count: the owner (root) of r was allocated before
+		conds := []string{sApp("<", sApp("root", r), allocE)}
 		for _, x := range fieldAt[name] {
 			conds = append(conds, sNot(sEq(r, x)))
 		}
